@@ -315,7 +315,7 @@ def check_schedule(res, scn):
 # ----------------------------------------------------------------------------
 # C07: bisection post-condition
 # ----------------------------------------------------------------------------
-def check_bisection(res, scn, tol=1e-6):
+def check_bisection(res, scn, tol=None):
     """For every adaptive iteration, from the stored population the step was
     computed on: ESS(beta_new)/N >= t_lo - eps and, when beta_new < 1,
     ESS(beta_new + slack)/N < t_hi + eps (ESS is non-increasing in beta, so
@@ -336,6 +336,8 @@ def check_bisection(res, scn, tol=1e-6):
         return out, stats
     bits = run_bits(res, scn)
     eps = 1e-2 if bits == 32 else 1e-7
+    if tol is None:
+        tol = float(sk.get("beta_tolerance", 1e-6))
     slack = 4 * tol if bits == 64 else max(4 * tol, 1e-4)
     where = scn_where(scn)
     te = sk.get("target_efficiency", 0.5)
@@ -357,9 +359,10 @@ def check_bisection(res, scn, tol=1e-6):
         if f32_unresolvable(bits, ll, lp, lq):
             stats["unresolvable_in_float32"] = stats.get("unresolvable_in_float32", 0) + 1
             continue
+        # "the target efficiency in force at that step": the step is decided while the run is at beta_prev, so the
+        # target in force is the ramp evaluated there (for a scalar target this is the scalar)
         t0 = M.target_eff(te, rate, b0)
-        t1 = M.target_eff(te, rate, b1)
-        t_lo, t_hi = min(t0, t1), max(t0, t1)
+        t_lo = t_hi = t0
         # the model's own floor arithmetic: which step would the floor give?
         floor_step = False
         if floor > 0:
